@@ -4,25 +4,59 @@ EXPLANATION = (
     "Bounded symbolic execution of the real code: Kani 0.68 translates the current /repo sources "
     "(rustc MIR) to a CBMC goto-program; harness inputs are kani::any() bit-vectors; CBMC 6.11 + CaDiCaL "
     "decide every assertion for ALL values inside the stated bounds (unwinding assertions on) or return a "
-    "concrete assignment, which is replayed natively (cargo kani playback, real code, no stubs) before a "
-    "VIOLATION is printed. The verdict says nothing outside the bounds listed per harness. "
+    "concrete assignment, which is replayed natively (cargo kani playback = cargo test of the real crate, no stubs) "
+    "before a VIOLATION is printed. The verdict says nothing outside the bounds listed per harness. "
     "evaluations = solver (decision-procedure) calls; distinct_nontrivial = satisfied kani::cover! witnesses "
-    "(reachability of the cases each harness is about), obligations = CBMC checks decided."
+    "(reachability of the cases each harness is about); obligations/discharged = CBMC checks decided/SUCCESS."
 )
 
 COMMON_ASSUMPTIONS = [
-    "Kani/CBMC/CaDiCaL and rustc's MIR are trusted; dev profile (debug assertions on unless stated), overflow checks on",
-    "stub alloc::fmt::format -> first literal piece of the template (<= 8 bytes) or '#': the text of messages is lost, emptiness and the leading '[Exxx]' literal are kept; arguments are still evaluated by the real code",
+    "Kani/CBMC/CaDiCaL and rustc's MIR are trusted; dev profile (debug assertions on unless the harness class is crash/functional_rel), overflow checks on; failed rustc overflow checks are reported as dev-profile-only notes (release wraps)",
+    "stub alloc::fmt::format -> first literal piece of the template (<= 8 bytes) or '#': the text of messages is lost, emptiness and the leading '[Exxx]' literal are kept; the leading '{pos:#X}: ' argument is read back from the fmt::Arguments; arguments are still evaluated by the real code",
     "stub core::fmt::write -> writes '#': callers decide Ok/Err by err_str.is_empty(); assumes every such format string renders >= 1 byte (all contain literal text)",
     "stub flume::Sender::send -> never blocks/fails, counts messages by variant, forgets the message (anything that statically reaches std::thread::current() crashes kani-compiler)",
-    "format-template reader (vsup::peek) depends on core::fmt::Arguments' layout of the pinned toolchain; validated on every run by vsup_selftest_* harnesses",
+    "stub its::util::report_error -> records (mem_pos, first 6 bytes of the message, the 10 quoted word bytes)",
+    "format-template reader (vsup::peek) depends on core::fmt::Arguments' layout of the pinned toolchain; validated on every run by the vsup_selftest_* harnesses",
+    "reference predicates in /verif/oracle are hand-written from doc/checks_list.md, doc/ITS_payload_fsm_continuous_mode.puml, README.md, CHANGELOG (v1.21.0 detector field) and the ITS/ALPIDE word layouts",
 ]
 
+STEP = ("one inductive step of the composed ITS payload validator per FSM state and word class: the state is reached by a concrete conforming "
+        "word prefix; the word under test has the fields its rules read symbolic and the other rules' inputs concrete and conforming ('one rule at a time'); "
+        "packet offset < 2^40 and data format in {0,2} symbolic")
+
 PROPS = {
-    "C11": dict(
-        decided="every one of the 2^80 values of an IHW/TDH/TDT/DDW0: sanity verdict == documented rule (ID, reserved masks, TDH trigger rule, DDW0 index); data word: ID range verdict for all ids; lane-active verdict for all ids x all lane masks; OB input <= 6 and lane = 7*connector+input",
-        outside=["the error text", "the three OB ids 0x47/0x4F/0x57 whose lane shift overflows in the dev profile (noted under C04)"],
-    ),
+    "C01": dict(decided="conforming input => silence: <= halves of C10 (all sane headers / HBF-start histories accepted) and C11 (all sane words accepted); FSM never reports an allowed sequence (C09 bisimulation); " + STEP + ": a conforming word yields zero reports; well-formed payloads are chunked without a debug assertion firing; exit status 0 when nothing was reported (exit table)",
+                outside=["stave mode beyond the ALPIDE decoder step (bunch-counter comparisons use HashMap)", "several links, batches of 100, -E/mute plumbing, clap", "multi-word symbolic templates (exhaust memory)"]),
+    "C02": dict(decided="fault catalogue, one documented rule at a time: " + STEP + ": the broken rule is reported with its documented code family at the offending word's offset quoting its bytes; running rules are silent under check sanity; padding limit reported once at the RDH; exit-status table for all codes/flags",
+                outside=["two or more rules broken at once", "faults needing more than one remembered packet", "stave-level rules", "the thread that raises the any-errors flag"]),
+    "C03": dict(decided="scanner inductive step: ONE load_cdp from an arbitrary input position (tracker < 2^40) over a stream with concrete packet sizes and filter-relevant ids and otherwise symbolic contents delivers the first matching packet with its true offset, truthful header fields and exactly its payload bytes and re-establishes the position invariant (file-like and pipe-like in-memory readers, load/skip, link/FEE/stave filters incl. absent values); offset_to_next accepted iff 64..=10064 for all headers; filter predicates for all values",
+                outside=["real files/pipes (StdInReaderSeeker reads io::stdin())", "payloads > 16 bytes", "batch size 100 (get_array_batch)", "whole multi-packet scans in one query (best-effort, exhaust memory)"]),
+    "C04": dict(decided="unit-level crash freedom in release semantics (debug assertions off): lane-count / inner-grouping checks for arbitrary lane and fatal-lane sets, Stave::from_feeid for all FEE ids, lane helpers, RDH validators over 4 arbitrary headers, ALPIDE byte classification never yields Ape(Padding), decoder step, payload chunking for all payloads <= 40 bytes, scanner truncation",
+                outside=["the process as a whole (threads, signals, stdout, exit)", "CdpRunningValidator::check on arbitrary words in stave mode", "wall-clock bounds", "uninitialised-read findings in load_payload_raw"]),
+    "C07": dict(decided="composition: scanner step gives true packet offset and bytes (C03); chunk i of preprocess_payload is the slice at i*slot (pointer equality, C12); every report of a validator step carries rdh_pos + 64 + index*slot and quotes exactly the word's 10 bytes (all step harnesses); CdpTracker/ view offset formulas for all indices",
+                outside=["rendering of numbers (std::fmt)", "stave-level multi-line messages", "E100/E101 positions"]),
+    "C08": dict(decided="RdhCru::from_buf(b).to_byte_slice() == b for all 2^512 headers; the scanner step delivers exactly the matching packets' bytes in order (C03, load mode); layer/stave, FEE and link match predicates for all values; BufferedWriter hands rdh0|payload0|rdh1|payload1 to its sink across a threshold flush",
+                outside=["files, stdout, the 1 MiB threshold, the writer thread", "union over all filter values", "stdin reader"]),
+    "C09": dict(decided="ItsPayloadFsmContinuous::advance from new() over all sequences of <= 8 words is bisimilar to the documented diagram (12 implementation states, every edge covered); one step from every reachable state; reset_fsm; an identifier illegal in a state is reported ([E30]/[E40] in single-successor states, [E99x] + fallback sanity error in choice states) at the word",
+                outside=["sequences longer than 8 words in one query (covered inductively by the one-step harness)"]),
+    "C10": dict(decided="RdhCruSanityValidator verdict == documented rules for all 2^512 headers (default, ITS-specialised, configured version; Header ID relative to the first header seen); RdhCruRunningChecker verdict == documented automaton over all 3-header histories from an HBF start and one step from an arbitrary checker state",
+                outside=["offsets of the RDH messages (LinkValidator needs crossbeam channels)", "page-counter overflow after 65535 pages without stop"]),
+    "C11": dict(decided="every one of the 2^80 values of an IHW/TDH/TDT/DDW0: sanity verdict == documented rule (ID, reserved masks, TDH trigger rule, DDW0 index); data word: ID range verdict for all ids; lane-active verdict for all ids x all lane masks; OB input <= 6 and lane = 7*connector+input",
+                outside=["the error text", "the three OB ids 0x47/0x4F/0x57 whose lane shift overflows in the dev profile (noted under C04)"]),
+    "C12": dict(decided="preprocess_payload on every payload of length 0..=40 (arbitrary contents, release semantics): Err iff trailing 0xFF run > 15; otherwise exactly the documented number of 16-byte or 10-byte chunks, chunk i being the slice at i*slot; on well-formed payloads the code's own debug assertions hold; over-long padding: one report at the RDH, no word examined, state reset",
+                outside=["payloads > 40 (thorough: 64) bytes", "the view path"]),
+    "C13": dict(decided="AlpideWord::from_byte == reference classification for all 256 bytes; LaneAlpideFrameAnalyzer::decode: one step from an arbitrary decoder state on any legal byte == reference ALPIDE transition (chip list, BC, fatal flag, readout-flag counters) -- the reference never looks at hit bytes; ReadoutFlags::log for all trailers; lane count / inner grouping verdicts",
+                outside=["bunch-counter comparisons across chips and lanes (itertools::unique -> HashMap/SipHash/getrandom)", "frames spread over packets", "process_frame's message text"]),
+    "C14": dict(decided="collector side: counters are the sums of the messages, err_count == number of Error messages, per-bit trigger counters, sorted links, de-duplicated FEE ids; scanner side (one step, statistics channel on): RDHSeen/RDHFiltered/PayloadSize/links/FEE ids/first-RDH values equal the ground truth of the visited packets",
+                outside=["HBF / layer-stave collection inside the analysis thread", "distinct error codes (regex)", "report table, written file"]),
+    "C16": dict(decided="util::lib::exit == documented table for all (code, flag, configured any-errors code); Config::validate_args is Err iff a documented invalid combination (check kind x target x trigger period x -E); error total == number of Error messages collected; custom-check failures counted",
+                outside=["clap parsing", "the controller thread", "display filtering by code (Chars iterators; not built)", "'rejected before any output is written'"]),
+    "C18": dict(decided="one packet followed by arbitrary bytes, input cut in each region (RDH / payload / at the boundary / inside the next RDH; both ends of each region, contents symbolic): complete packet delivered unchanged, cut payload => RDH delivered + exactly one [E100], cut RDH => UnexpectedEof",
+                outside=["cut inside the first 8 bytes at init_processing level (fixed defect F2, shown on the binary)", "validators' reaction", "real pipes"]),
+    "C19": dict(decided="view word offset formula for all indices/formats/offsets; ItsPayloadWord::from_id == identifier table for all 256 ids and agrees with the FSM's classification on allowed sequences; TDH/TDT/DDW0/RDH-trigger label functions == documented bits for all inputs",
+                outside=["rows, layout, styled == unstyled, anything written to stdout"]),
+    "C20": dict(decided="check_trigger_interval: Err iff (cur - prev) mod 3564 != P for all BC <= 3563 and all P; driver: [E45] exactly for consecutive internal-trigger TDHs; validate_custom_stats: [E9001]/[E9002] iff observed != configured, absent keys change nothing; configured RDH version enforced by the sanity validator",
+                outside=["TOML parsing", "chip count/order checks (behind check_bunch_counters: HashMap)"]),
 }
 
 
